@@ -57,3 +57,9 @@ Definition unit_case (id : Z) (kind : nat) (det fixed : bool) (l : list (string 
   let m := model_items kind fixed l aux aux2 in
   let agree := if det then forallb (list_eqb m) outs else forallb (same_items m) outs in
   [id; b2z agree; b2z (all_equal outs); b2z (Nat.leb 2 (List.length l)); Z.of_nat (List.length outs)].
+
+(* the same with the renderings given as indices into the table of distinct renderings (most of
+   the 180 renderings of a case are equal; this only keeps the generated file small) *)
+Definition render_case_ix (id : Z) (table : list (list (string * string))) (seq : list (nat * bool))
+  (maxmap : Z) (attributed : bool) : list Z :=
+  render_case id (map (fun ib => (nth (fst ib) table [("<bad index>", "")], snd ib)) seq) maxmap attributed.
